@@ -140,7 +140,11 @@ func (t *term) serve(r *rand.Rand, sc termScript, done <-chan struct{}) {
 			if mode == "mixed" {
 				mode = []string{"prompt", "late", "dup", "unknown", "never", "prompt"}[r.Intn(6)]
 			}
-			answer := func(s int) { t.send(t.frame(respFor(cmd), respBody(respFor(cmd), s, cmd))) }
+			rid := respFor(cmd)
+			if rid != 0x0001 && r.Intn(4) == 0 {
+				rid = 0x0001 // a terminal may answer any command with the general response: it echoes the serial and the command id
+			}
+			answer := func(s int) { t.send(t.frame(rid, respBody(rid, s, cmd))) }
 			switch mode {
 			case "prompt":
 				answer(seq)
@@ -324,6 +328,45 @@ func init() {
 			}
 			res := <-resCh
 			l.rec.log(t.idx, "D", "assert", "ok", res.Kind == "resp", "what", "TerminalUnreachableAfterARefusedDuplicateLeft", "kind", res.Kind)
+		}
+		// (a4) two 0x9003 queries outstanding, the terminal sends one 0x1003: one caller gets it, the other its time-out
+		{
+			t := terms[0]
+			key := string(asciiDigits(t.phone))
+			attrs := []byte{1, 2, 3, 4, 0, 160, 1, 98, 2, 4}
+			resCh := make(chan cmdResult, 2)
+			for i := 0; i < 2; i++ {
+				k := int(kid.Add(1))
+				go func() {
+					resCh <- l.sendActive(t.idx, k, key, consts.P9003QueryTerminalAudioVideoProperties, nil, 400*time.Millisecond)
+				}()
+			}
+			_, ok1 := nextCmd(t, 0x9003, 2*time.Second)
+			_, ok2 := nextCmd(t, 0x9003, 2*time.Second)
+			if ok1 && ok2 {
+				t.send(t.frame(0x1003, attrs))
+			}
+			r1, r2 := <-resCh, <-resCh
+			got := map[string]int{r1.Kind: 1}
+			got[r2.Kind]++
+			l.rec.log(t.idx, "D", "assert", "ok", !(ok1 && ok2) || (got["resp"] == 1 && got["timeout"] == 1), "what", "OneResponseGivenToTwoCallers", "kinds", r1.Kind+","+r2.Kind)
+			time.Sleep(50 * time.Millisecond)
+		}
+		// (a3) a caller without a time-out whose terminal takes longer than any default time-out (3.4 s): it gets the response
+		{
+			t := terms[0]
+			key := string(asciiDigits(t.phone))
+			resCh := make(chan cmdResult, 1)
+			k := int(kid.Add(1))
+			go func() {
+				resCh <- l.sendActive(t.idx, k, key, consts.P8104QueryTerminalParams, nil, -time.Millisecond)
+			}()
+			if ser, ok := nextCmd(t, 0x8104, 3*time.Second); ok {
+				time.Sleep(3400 * time.Millisecond)
+				t.send(t.frame(0x0104, respBody(0x0104, ser, 0x8104)))
+			}
+			res := <-resCh
+			l.rec.log(t.idx, "D", "assert", "ok", res.Kind == "resp", "what", "CallerWithoutATimeOutDidNotGetTheLateResponse", "kind", res.Kind, "ms", res.Ms)
 		}
 		// (b) completions for callers that have left: the writer of terminal t is parked (by the clock) for longer than two callers
 		// wait; when it wakes it still writes their commands and their time-outs expire - results nobody waits for.  Meanwhile
@@ -734,6 +777,9 @@ func init() {
 			for len(d) < 12 {
 				d = "0" + d
 			}
+			if d[10:12] == "98" && m.JTMessage.Header.ID != 0x0102 { // registered by its authentication only
+				return "", false
+			}
 			return strings.TrimLeft(d[8:10], "0"), true
 		}})
 		kid := 0
@@ -776,8 +822,75 @@ func init() {
 			}
 			wg.Wait()
 		}
+		// registration and authentication in one write, then an immediate reset: the reply to the first fails (the connection has
+		// no key yet) while the reader is about to join with the second. When the connection has gone its key is gone too
+		for i := 0; i < 10; i++ {
+			ph := []byte{0x01, 0x36, 0x00, 0x00, byte(0x20 + i%3), 0x98}
+			key := keyOf(ph)
+			t := l.dial(ph, 0)
+			reg := append(make([]byte, 25+8), []byte("A12345")...)
+			t.send(append(t.frame(0x0100, reg), t.frame(0x0102, asciiDigits(ph))...))
+			if i%2 == 1 {
+				time.Sleep(time.Duration(i*60) * time.Microsecond)
+			}
+			t.close(true)
+			time.Sleep(150 * time.Millisecond)
+			var wg sync.WaitGroup
+			for j := 0; j < 2; j++ {
+				kid++
+				wg.Add(1)
+				go func(k int) {
+					defer wg.Done()
+					r := l.sendActive(t.idx, k, key, consts.P8104QueryTerminalParams, nil, -time.Millisecond)
+					l.rec.log(t.idx, "D", "assert", "ok", r.Kind == "notexist" && r.Ms < 400, "what", "CallerOfADepartedKeyNotToldAtOnce", "key", key, "kind", r.Kind, "ms", r.Ms, "tmo", -1)
+				}(kid)
+			}
+			wg.Wait()
+		}
 		time.Sleep(100 * time.Millisecond)
 		l.dump(a[0])
+	}
+}
+
+func init() {
+	// live-c13wrap <out>: request A (time-out 3 s) is answered at once; 65535 replies later request B - from a caller without a
+	// time-out - is written under A's platform serial; A's timer fires (a stale completion for that serial); the terminal never
+	// answers B and finally leaves: B's caller is told so
+	cmds["live-c13wrap"] = func(a []string) {
+		l := startLive(liveOpts{})
+		phone := []byte{0x01, 0x37, 0x00, 0x00, 0x00, 0x09}
+		t := l.dial(phone, 0)
+		key := string(asciiDigits(phone))
+		t.send(t.frame(0x0002, nil))
+		t.waitRecv(1, 5*time.Second)
+		<-t.recvCh
+		resA := make(chan cmdResult, 1)
+		go func() { resA <- l.sendActive(t.idx, 1, key, consts.P8104QueryTerminalParams, nil, 3*time.Second) }()
+		fr := <-t.recvCh
+		dv, _ := decodeView(fr)
+		t0 := time.Now()
+		t.send(t.frame(0x0104, respBody(0x0104, dv.Serial, 0x8104)))
+		ra := <-resA
+		for i := 0; i < 65535; i++ {
+			t.send(t.frame(0x0002, nil))
+			if i%2000 == 1999 {
+				t.waitRecv(int64(i+2), 20*time.Second)
+			}
+		}
+		t.waitRecv(65537, 30*time.Second)
+		wrapMs := time.Since(t0).Milliseconds()
+		resB := make(chan cmdResult, 1)
+		go func() { resB <- l.sendActive(t.idx, 2, key, consts.P8104QueryTerminalParams, nil, -time.Millisecond) }()
+		if d := 3400*time.Millisecond - time.Since(t0); d > 0 {
+			time.Sleep(d) // A's timer has fired by now
+		}
+		time.Sleep(200 * time.Millisecond)
+		closedAt := time.Now()
+		t.close(false)
+		rb := <-resB // (sendActive's own watchdog reports a call that never returns as "stranded" after 7 s)
+		out := newND(a[0])
+		out.put(map[string]any{"a_kind": ra.Kind, "a_seq": dv.Serial, "wrap_ms": wrapMs, "b_kind": rb.Kind, "b_seq": rb.PlatSeq, "b_after_close_ms": time.Since(closedAt).Milliseconds()})
+		out.close()
 	}
 }
 
@@ -872,6 +985,33 @@ func init() {
 	// the writer is busy and more re-requests are pending than its queue holds
 	cmds["live-c14"] = func(a []string) {
 		l := startLive(liveOpts{})
+		// meanwhile, on a second connection: the first packet of a transfer is the connection's very first frame (it joins the
+		// terminal), and a platform command is sent to the terminal before the transfer goes idle; the re-request is unaffected
+		second := make(chan map[string]any, 1)
+		go func() {
+			ph := []byte{0x01, 0x29, 0x00, 0x00, 0x00, 0x15}
+			u := l.dial(ph, 0)
+			u.serial = 700
+			first := u.nextSerial()
+			u.send(buildFrame(hdrSpec{id: 0x0801, serial: first, frag: 1, total: 4, no: 1, phone: ph, body: make([]byte, 36)}))
+			u.send(buildFrame(hdrSpec{id: 0x0801, serial: u.nextSerial(), frag: 1, total: 4, no: 3, phone: ph, body: []byte{3}}))
+			time.Sleep(100 * time.Millisecond)
+			l.sendActive(u.idx, 9001, string(asciiDigits(ph)), consts.P8104QueryTerminalParams, nil, 200*time.Millisecond) // never answered
+			time.Sleep(5300 * time.Millisecond)
+			for len(u.recvCh) > 0 {
+				<-u.recvCh
+			}
+			before := u.nrecv.Load()
+			u.send(u.frame(0x0002, nil))
+			u.waitRecv(before+2, 10*time.Second)
+			time.Sleep(200 * time.Millisecond)
+			frames := []B{}
+			for len(u.recvCh) > 0 {
+				frames = append(frames, <-u.recvCh)
+			}
+			u.close(false)
+			second <- map[string]any{"firsts": []int{first}, "missing": [][]int{{2, 4}}, "frames": frames}
+		}()
 		phone := []byte{0x01, 0x29, 0x00, 0x00, 0x00, 0x14}
 		t := l.dial(phone, 0)
 		t.send(t.frame(0x0002, nil))
@@ -925,6 +1065,7 @@ func init() {
 		}
 		out := newND(a[0])
 		out.put(map[string]any{"firsts": firsts, "missing": missing, "frames": frames})
+		out.put(<-second)
 		out.close()
 		t.close(false)
 	}
